@@ -461,6 +461,11 @@ def close(a, b, *, rtol=0.0, atol=0.0, scale=None):
     """max |a-b| <= atol + rtol*scale  (scale defaults to max(|a|,|b|))."""
     a = np.asarray(a)
     b = np.asarray(b)
+    # boolean / integer arrays (hard partitions, counts) are compared as numbers
+    if a.dtype.kind in 'biu':
+        a = a.astype(np.float64)
+    if b.dtype.kind in 'biu':
+        b = b.astype(np.float64)
     if a.shape != b.shape:
         try:
             a, b = np.broadcast_arrays(a, b)
